@@ -1,4 +1,5 @@
 import Prom.Props.C07
+import Prom.Lemmas.GatheredNames
 /-
 C14 — A gathered family never mixes metric types.
 
@@ -54,5 +55,69 @@ theorem merged_inv_aux (all : List Family) (hh : Homogeneous all) : ∀ (rest ac
           simp only []
           rw [← this]
           exact hh.1 f hf s hs
+
+/-! ### families without samples do not take part in the merge -/
+
+/-- a fold that skips the elements satisfying `p` is the fold over the others -/
+theorem foldl_skip_filter {α β : Type} (p : α → Bool) (g : α → β → β) : ∀ (l : List α) (acc : β),
+    l.foldl (fun acc a => if p a then acc else g a acc) acc =
+      (l.filter fun a => !p a).foldl (fun acc a => if p a then acc else g a acc) acc := by
+  intro l
+  induction l with
+  | nil => intro acc; rfl
+  | cons a t ih =>
+    intro acc
+    by_cases hp : p a = true
+    · simp only [List.foldl_cons, hp, if_true, List.filter_cons, Bool.not_true, Bool.false_eq_true, if_false]
+      exact ih acc
+    · have hp' : p a = false := by simpa using hp
+      simp only [List.foldl_cons, hp', Bool.false_eq_true, if_false, List.filter_cons, Bool.not_false, if_true]
+      exact ih _
+
+/-- the merge phase does not see the families without samples -/
+theorem merged_filter_nonempty (collected : List Family) :
+    C07.merged collected = C07.merged (collected.filter fun f => !f.samples.isEmpty) :=
+  foldl_skip_filter (fun f : Family => f.samples.isEmpty) famInsert collected []
+
+/-- per name one type among the collected families THAT HAVE A SAMPLE: `ty n` is the type under the
+    name `n` (families without samples may have any type) -/
+def NonemptyTyped (ty : Str → MType) (collected : List Family) : Prop :=
+  ∀ c ∈ collected, c.samples ≠ [] → c.ty = ty c.name
+
+/-- the pairwise formulation: two collected families with samples and the same name have the same type -/
+def NonemptySameType (collected : List Family) : Prop :=
+  ∀ f ∈ collected, ∀ g ∈ collected, f.samples ≠ [] → g.samples ≠ [] → f.name = g.name → f.ty = g.ty
+
+/-- the two formulations agree -/
+theorem nonemptySameType_iff (collected : List Family) :
+    NonemptySameType collected ↔ ∃ ty, NonemptyTyped ty collected := by
+  constructor
+  · intro h
+    refine ⟨fun n => match collected.find? (fun c => !c.samples.isEmpty && c.name == n) with
+      | some c => c.ty | none => .counter, ?_⟩
+    intro c hc hne
+    cases hf : collected.find? (fun x => !x.samples.isEmpty && x.name == c.name) with
+    | none =>
+      have := List.find?_eq_none.1 hf c hc
+      simp [hne] at this
+    | some c' =>
+      have hc' := List.mem_of_find?_eq_some hf
+      have hp := List.find?_some hf
+      simp only [Bool.and_eq_true, Bool.not_eq_eq_eq_not, Bool.not_true, List.isEmpty_eq_false_iff, ne_eq,
+        beq_iff_eq] at hp
+      simp only [hf]
+      exact h c hc c' hc' hne hp.1 hp.2.symm
+  · rintro ⟨ty, h⟩ f hf g hg hnf hng hn
+    rw [h f hf hnf, h g hg hng, hn]
+
+theorem NonemptyTyped.perm {ty : Str → MType} {c c' : List Family} (hp : c.Perm c') (h : NonemptyTyped ty c) :
+    NonemptyTyped ty c' := fun x hx => h x (hp.mem_iff.2 hx)
+
+/-- under `NonemptyTyped ty`, a merged family has the type of its name -/
+theorem merged_ty {ty : Str → MType} {collected : List Family} (hh : NonemptyTyped ty collected) :
+    ∀ g ∈ C07.merged collected, g.ty = ty g.name := by
+  intro g hg
+  obtain ⟨c0, hc0, hne, hn, _, hty⟩ := C07.merged_attrs collected g hg
+  rw [← hty, hh c0 hc0 hne, hn]
 
 end Prom.C14
